@@ -103,7 +103,7 @@ if os.path.isdir(nd) and os.path.exists(os.path.join(nd, "RESULTS.json")):
         m = json.load(open(mp))
         r = nres.get(d) or {}
         f1 = nfirst_r.get(d, "quiet")
-        if f1 != "quiet":
+        if f1.startswith("ALARM"):
             nfa += 1
         if m.get("status") == "rejected":
             now = "rejected: the change does break the property (%s)" % m.get("rejected_reason", "")[:160]; nrj += 1
